@@ -108,6 +108,9 @@ def run(ctx: Ctx):
     ctx.interp.loop_invariants = {}     # the contracts above are done; the harness below runs the real loop
     from props import C03b
     C03b.run(ctx, e)
+    # the look-up part for a component / system with ANY number of ports (DESIGN.md 8.6)
+    from props import gen_unbounded
+    gen_unbounded.guarded(ctx, 'dzn-elements', gen_unbounded.run_dzn_elements)
 
 
 # ------------------------------------------------------------------------------------------------------------
